@@ -454,6 +454,18 @@ double cmb_random_std_gamma(const double shape)
 {
     cmb_assert_release(shape > 0.0);
 
+    if (shape < 1.0) {
+        /*
+         * The method below needs shape >= 1 (d is negative and c undefined
+         * for shape < 1/3). Boost the shape by one and scale the result back,
+         * see section 6 of Marsaglia & Tsang. The uniform variate is taken on
+         * (0, 1) to keep the result strictly positive.
+         */
+        double u;
+        while ((u = cmb_random()) == 0.0) {}
+        return cmb_random_std_gamma(shape + 1.0) * pow(u, 1.0 / shape);
+    }
+
     static CMB_THREAD_LOCAL double a_prev = 0.0;
     static CMB_THREAD_LOCAL double c = 0.0;
     static CMB_THREAD_LOCAL double d = 0.0;
